@@ -13,6 +13,7 @@ import (
 	"runtime"
 	"sort"
 	"strings"
+	"sync/atomic"
 	"time"
 
 	"github.com/rbell/toolchest/storage"
@@ -222,8 +223,24 @@ func runHist(w *cw.Writer, mon int, h hist, tag string) {
 	}
 	r := newRunner(h.o, h.cap, h.U)
 	defer r.close()
+	// watchdog: a sequential history whose operation never returns (a lock left held, a lost wake-up) is a failing
+	// input in its own right; report it with the operation instead of hanging until the runner's time limit
+	var cur atomic.Value
+	cur.Store("new cache")
+	finished := make(chan struct{})
+	defer close(finished)
+	go func() {
+		select {
+		case <-finished:
+		case <-time.After(30 * time.Second):
+			fmt.Fprintf(os.Stderr, "BLOCKED: operation %q of the sequential history [%s] (option %v, capacity %d) did not return within 30s; observed so far: %v\n",
+				cur.Load(), strings.Join(h.prog, " "), h.o, h.cap, r.desc)
+			os.Exit(3)
+		}
+	}()
 	r.obs() // block 0: a new cache (Capacity rounding, empty views)
-	for _, p := range h.prog {
+	for i, p := range h.prog {
+		cur.Store(fmt.Sprintf("#%d %s", i, p))
 		switch p[0] {
 		case 's':
 			r.set(atoi(p[1:]))
